@@ -6,6 +6,7 @@ import Mathlib.Tactic.Ring
 import Mathlib.Tactic.FieldSimp
 import Mathlib.Algebra.Order.Field.Rat
 import Mathlib.Algebra.Order.Field.Basic
+import Mathlib.Tactic.Positivity
 /-!
 # C16 — every flux sample is a feasible flux distribution
 
@@ -325,6 +326,58 @@ theorem withinTol_spec (tol : Rat) : ∀ (lo hi p : List Rat), withinTol tol lo 
         | succ j =>
           simp only [List.getElem_cons_succ]
           exact ih his ps hw.2 (by simpa using hl) (by simpa using hh) j (by simpa using h1) (by simpa using h2) (by simpa using h3)
+
+/-! ### the running centre -/
+
+theorem dot_addV_right : ∀ (a u v : List Rat), a.length = u.length → u.length = v.length → dot a (addV u v) = dot a u + dot a v := by
+  intro a
+  induction a with
+  | nil => intros; simp [dot]
+  | cons a0 a ih =>
+    intro u v h1 h2
+    cases u with
+    | nil => simp at h1
+    | cons u0 u =>
+      cases v with
+      | nil => simp at h2
+      | cons v0 v =>
+        simp only [addV, dot]
+        rw [ih u v (by simpa using h1) (by simpa using h2)]; ring
+
+theorem dot_scaleV_right : ∀ (a u : List Rat) (k : Rat), dot a (scaleV k u) = k * dot a u := by
+  intro a
+  induction a with
+  | nil => intros; simp [dot]
+  | cons a0 a ih =>
+    intro u k
+    cases u with
+    | nil => simp [scaleV, dot]
+    | cons u0 u => simp only [scaleV, dot]; rw [ih u]; ring
+
+/-- `center = (n * center + p) / (n + 1)`, coordinate by coordinate -/
+def newCentre (n : Rat) (c p : List Rat) : List Rat := scaleV (1 / (n + 1)) (addV (scaleV n c) p)
+
+/-- a coordinate of the updated centre lies between the old centre and the new point: boxes are kept -/
+theorem centre_coordinate (n c p lo hi : Rat) (hn : 0 ≤ n) (hc : lo ≤ c ∧ c ≤ hi) (hp : lo ≤ p ∧ p ≤ hi) :
+    lo ≤ 1 / (n + 1) * (n * c + p) ∧ 1 / (n + 1) * (n * c + p) ≤ hi := by
+  have hpos : 0 < n + 1 := by linarith
+  have e : 1 / (n + 1) * (n * c + p) = (n * c + p) / (n + 1) := by ring
+  rw [e]
+  constructor
+  · rw [le_div_iff₀ hpos]
+    nlinarith [mul_le_mul_of_nonneg_left hc.1 hn]
+  · rw [div_le_iff₀ hpos]
+    nlinarith [mul_le_mul_of_nonneg_left hc.2 hn]
+
+/-- the updated centre satisfies every equality the old centre and the new point satisfy -/
+theorem centre_keeps_equalities (a c p : List Rat) (n b : Rat) (hn : 0 ≤ n) (hc : a.length = c.length) (hp : a.length = p.length)
+    (ec : dot a c = b) (ep : dot a p = b) : dot a (newCentre n c p) = b := by
+  unfold newCentre
+  have hpos : n + 1 ≠ 0 := by linarith
+  have hlen : (scaleV n c).length = p.length := by rw [length_scaleV]; omega
+  have hlen0 : a.length = (scaleV n c).length := by rw [length_scaleV]; exact hc
+  rw [dot_scaleV_right, dot_addV_right a _ _ hlen0 hlen, dot_scaleV_right, ec, ep]
+  field_simp
 
 /-! ### from variables to fluxes -/
 
